@@ -201,15 +201,14 @@ def _mask_hook(maskvars, used):
     return hook
 
 
-def stage_args(repo, run):
-    rid = run.rule("C02.2", "stage arguments: rhs is evaluated at (t0 + h*c_i, y0 + h*sum_j a_ij k_j) with the sum over the stage axis of "
-                            "the stage array, the result stored at stage i, for all stages (compute_step, algebraic_system, "
-                            "high-precision Jacobian branch)", floor=9)
+def compute_step_part(repo, run, rid, rule_id="C02.2"):
     fn = repo.get(RKM, "compute_step")
     run.analysed_fn(RKM, fn)
     P = [a.arg for a in fn.args.args]
-    if len(P) != 8:
+    ndef = len(fn.args.defaults)
+    if len(P) < 8 or len(P) - ndef > 7:
         raise AnalysisError("compute_step signature changed: %s" % P)
+    # parameters added after the eight known ones must have defaults (callers that do not pass them get the full stage loop)
     roles = dict(zip(P, ["rhs", "t0", "y0", "h", "Sin", "Sout", "TAB", "kw"]))
     loops = [st for st in fn.body if isinstance(st, ast.For)]
     if len(loops) != 1 or not isinstance(loops[0].target, ast.Name):
@@ -219,11 +218,13 @@ def stage_args(repo, run):
     # loop range: all stages
     c0 = Canon(rename=roles, env=inline_locals(fn))
     it = loop.iter
-    okr = isinstance(it, ast.Call) and dotted(it.func) == "range" and len(it.args) == 1 and \
-        c0.text(it.args[0]) in ("Sin.shape[-1]", "Sout.shape[-1]", "TAB.shape[0]", "len(TAB)")
+    okr = isinstance(it, ast.Call) and dotted(it.func) == "range" and len(it.args) in (1, 2) and \
+        c0.text(it.args[-1]) in ("Sin.shape[-1]", "Sout.shape[-1]", "TAB.shape[0]", "len(TAB)") and \
+        (len(it.args) == 1 or (isinstance(it.args[0], ast.Constant) and it.args[0].value == 0))
     run.judged(rid, "compute_step loop: %s" % src(loop.iter), ok=okr)
     if not okr:
-        run.report("C02.2", RKM, loop.iter, "the stage loop does not run over all stages (range(number of stages))")
+        run.report(rule_id, RKM, loop.iter, "the stage loop does not run over all stages (range(number of stages)): a stage slope that is not recomputed is "
+                                            "whatever the stage array held before (a value of a previous step, of another state or another right-hand side)")
     # masks
     maskvars = {}
     for st in ast.walk(loop):
@@ -239,7 +240,7 @@ def stage_args(repo, run):
                     isinstance(x, ast.Call) and fname(x) in ("abs", "absolute") for x in ast.walk(cmp_))
                 run.judged(rid, "coefficient mask: %s" % src(st), ok=not bad)
                 if bad:
-                    run.report("C02.2", RKM, cmp_, "the coefficient mask orders coefficients against a constant: coefficients of one sign are "
+                    run.report(rule_id, RKM, cmp_, "the coefficient mask orders coefficients against a constant: coefficients of one sign are "
                                                    "dropped from the stage sum (only exactly-zero coefficients may be masked)")
     env = inline_locals(fn, keep=set(maskvars))
     used = []
@@ -253,13 +254,13 @@ def stage_args(repo, run):
     ok = got_t == want_t
     run.judged(rid, "compute_step time argument: %s" % got_t.canon(), ok=ok)
     if not ok:
-        run.report("C02.2", RKM, call.args[0], "stage time is %s, the Runge-Kutta stage time is t0 + h*c_i = %s" % (got_t.canon(), want_t.canon()))
+        run.report(rule_id, RKM, call.args[0], "stage time is %s, the Runge-Kutta stage time is t0 + h*c_i = %s" % (got_t.canon(), want_t.canon()))
     got_y = canon.poly(call.args[1])
     cands = [T("y0 + h * sum(Sin * TAB[stage, 1:], axis=-1)"), T("y0 + sum(h * Sin * TAB[stage, 1:], axis=-1)")]
     ok = got_y in cands and len(set(used)) <= 1
     run.judged(rid, "compute_step state argument: %s" % got_y.canon(), ok=ok)
     if not ok:
-        run.report("C02.2", RKM, call.args[1], "stage state is %s, the Runge-Kutta stage state is %s%s" % (
+        run.report(rule_id, RKM, call.args[1], "stage state is %s, the Runge-Kutta stage state is %s%s" % (
             got_y.canon(), cands[0].canon(), "; the two factors are masked differently" if len(set(used)) > 1 else ""))
     # result stored at [..., stage] of Sout
     okst = False
@@ -272,7 +273,16 @@ def stage_args(repo, run):
                     okst = True
     run.judged(rid, "compute_step stores rhs value at Sout[..., stage]", ok=okst)
     if not okst:
-        run.report("C02.2", RKM, loop, "the slope of stage i is not stored at [..., i] of the output stage array", text="stage store in compute_step")
+        run.report(rule_id, RKM, loop, "the slope of stage i is not stored at [..., i] of the output stage array", text="stage store in compute_step")
+
+    return fn, P, roles, loop, canon, env, call
+
+
+def stage_args(repo, run):
+    rid = run.rule("C02.2", "stage arguments: rhs is evaluated at (t0 + h*c_i, y0 + h*sum_j a_ij k_j) with the sum over the stage axis of "
+                            "the stage array, the result stored at stage i, for all stages (compute_step, algebraic_system, "
+                            "high-precision Jacobian branch)", floor=9)
+    fn, P, roles, loop, canon, env, call = compute_step_part(repo, run, rid)
 
     # algebraic_system / jacobian
     for meth in ("algebraic_system", "algebraic_system_jacobian"):
